@@ -212,6 +212,9 @@ class Engine:
                     okl.append(z3.Exists([q], z3.And(0 <= q, q < a[1], z3.Select(a[2], q) == ref)))
                 elif a[0] == 'block':
                     okl.append(z3.And(a[1] <= ref, ref < a[1] + a[2]))
+                elif a[0] == 'eachlist' and key is None:
+                    q = z3.Int(fresh_name('q'))
+                    okl.append(z3.Exists([q], z3.And(0 <= q, q < a[1], z3.Select(a[2], q) == ref)))
             self.oblige(st, "loop%s:modifies:%s@L%d" % (ordn, what, getattr(node, 'lineno', 0)), 'frame',
                         z3.Or(*okl), node)
 
